@@ -601,6 +601,7 @@ func (x *Exec) applySpecNamed(st *State, c *ssa.Call, fn *ssa.Function, spec *Fu
 		x.oblige(st, fmt.Sprintf("%s/decreases#%d", x.qname, callOrd), "decreases", g, "recursive call decreases "+spec.Decreases.Text, x.posOf(c), nil)
 	}
 	// frame: havoc what the callee may assign
+	x.modelHandles = nil
 	for _, a := range spec.Assigns {
 		locs := x.evalAssignTarget(env, a, spec)
 		for _, loc := range locs {
@@ -638,6 +639,18 @@ func (x *Exec) applySpecNamed(st *State, c *ssa.Call, fn *ssa.Function, spec *Fu
 		}
 		st.assume(x.evalClause(st, penv, cl, spec))
 	}
+	// objects reached only through interface contracts keep their type's history constraint
+	seenMH := map[string]bool{}
+	for _, mh := range x.modelHandles {
+		if seenMH[mh.ref.Key()] {
+			continue
+		}
+		seenMH[mh.ref.Key()] = true
+		if c, cenv := x.constraintFor(st, mh.dt, VRef{mh.ref}, pre); c != nil {
+			st.assume(x.evalClause(st, cenv, c, spec))
+		}
+	}
+	x.modelHandles = nil
 	k(st, x.resultOf(sig, rs))
 }
 
